@@ -50,12 +50,26 @@ class IFl(enum.IntFlag):
     W = 2
 
 
+class TupleValued(enum.Enum):
+    PAIR = (1, 'a')
+    NESTED = ((1, 2), [3])
+
+
+Renamed = collections.namedtuple('Renamed', ['class', 'def', 'x', 'x'], rename=True)
+
+
+class PointSub(collections.namedtuple('PointBase', 'x y')):
+    __slots__ = ()
+
+
+PointSub.__qualname__ = 'PointSub'
 Point0 = collections.namedtuple('Point0', '')
 Point1 = collections.namedtuple('Point1', 'x')
 Point3 = collections.namedtuple('Point3', 'x y z')
 NT = collections.namedtuple('NT', 'a b')
 
-NS = {'vlib': __import__('vlib'), 'datetime': dt, 'collections': collections, 'uuid': uuid, 'types': types, 'functools': functools,
+import fractions
+NS = {'vlib': __import__('vlib'), 'fractions': fractions, 'datetime': dt, 'collections': collections, 'uuid': uuid, 'types': types, 'functools': functools,
       'pathlib': pathlib, 'pytz': pytz, 'enum': enum, 'mappingproxy': types.MappingProxyType}
 
 TD = dt.timedelta
@@ -128,11 +142,40 @@ def gen_instances(rng, quick):
     yield 'SimpleNamespace', types.SimpleNamespace(z=1, a=types.SimpleNamespace(q=[1]))
     for u in (uuid.UUID(int=0), uuid.UUID(int=2 ** 128 - 1), uuid.UUID('12345678-1234-5678-1234-567812345678'), uuid.UUID(int=rng.getrandbits(128))):
         yield 'UUID', u
-    for cls in (Color, IE, SE, Fl, IFl):
+    for cls in (Color, IE, SE, Fl, IFl, TupleValued):
         for name, member in cls.__members__.items():
             yield 'Enum member', member
     for p in (Point0(), Point1(1), Point1([1, 2]), Point3(1, 'a', None), Point3(Point1(1), (1,), {'k': 'v'}), Point3('x' * 40, 'y' * 40, 'z' * 40)):
         yield 'namedtuple', p
+    yield 'namedtuple', Renamed(1, 2, 3, 4)
+    yield 'namedtuple', PointSub(1, [2, 3])
+    yield 'namedtuple', PointSub(PointSub(1, 2), Renamed('a', 'b', 'c', 'd'))
+    import fractions
+    yield 'defaultdict', collections.defaultdict(collections.OrderedDict, {'k': collections.OrderedDict(a=1)})
+    yield 'defaultdict', collections.defaultdict(fractions.Fraction, {1: 2})
+    yield 'defaultdict', collections.defaultdict(collections.defaultdict, {})
+    yield 'Counter', collections.Counter({1: 2, 'a': 2, (1, 2): 2, None: 1, b'b': 1})
+    yield 'Counter', collections.Counter({'x' * 40: 3, 'y' * 40: 3})
+    yield 'partial', functools.partial(functools.partial(dict, a=1, b=2), b=3, c=4)
+    yield 'partial', functools.partial(functools.partial(sorted, reverse=True), key=len)
+    yield 'exception', ValueError((1, 2))
+    yield 'exception', KeyError(('a', 'b'))
+    yield 'exception', OSError((2, 'x'))
+    yield 'exception', Exception([ValueError('inner', (1,))], {'k': KeyError(1)})
+    for p_ in ('C:foo', 'C:foo/bar', 'a/b.', 'a./b', '.hidden', 'a/./b', 'a//b', 'c:/', '\\\\host\\share', 'trailing/'):
+        yield 'pure path', pathlib.PureWindowsPath(p_)
+        yield 'pure path', pathlib.PurePosixPath(p_)
+    for days in (365, 730, 1095, 3650, 365 * 2739726):
+        for extra in (TD(0), TD(microseconds=1), TD(microseconds=999999), TD(seconds=1), TD(milliseconds=1), -TD(microseconds=1)):
+            yield 'timedelta', TD(days=days) + extra
+            yield 'timedelta', -(TD(days=days) + extra)
+    for z in zones:
+        yield 'datetime', dt.datetime(2021, 3, 4, 5, 6, 0, 7, tzinfo=z)
+        yield 'datetime', dt.datetime(2021, 3, 4, 0, 0, 0, 7, tzinfo=z, fold=1)
+        yield 'datetime', dt.datetime(2021, 3, 4, 5, 0, 9, 0, tzinfo=z)
+        if z is None or not isinstance(z, pytz.tzinfo.DstTzInfo):
+            yield 'time', dt.time(0, 0, 0, 5, tzinfo=z, fold=1)
+            yield 'time', dt.time(7, 0, 9, tzinfo=z)
     yield 'partial', functools.partial(int)
     yield 'partial', functools.partial(int, '101', base=2)
     yield 'partial', functools.partial(sorted, [3, 1, 2], reverse=True)
